@@ -63,7 +63,7 @@ def latmio_dir_connected(R, itr, D=None, seed=None):
 
     i, j = np.where(R)
     k = len(i)
-    itr *= k
+    itr = itr * k
 
     # maximal number of rewiring attempts per iteration
     max_attempts = np.round(n * k / (n * (n - 1)))
@@ -189,7 +189,7 @@ def latmio_dir(R, itr, D=None, seed=None):
 
     i, j = np.where(R)
     k = len(i)
-    itr *= k
+    itr = itr * k
 
     # maximal number of rewiring attempts per iteration
     max_attempts = np.round(n * k / (n * (n - 1)))
@@ -298,7 +298,7 @@ def latmio_und_connected(R, itr, D=None, seed=None):
 
     i, j = np.where(np.tril(R))
     k = len(i)
-    itr *= k
+    itr = itr * k
 
     # maximal number of rewiring attempts per iteration
     max_attempts = np.round(n * k / (n * (n - 1) / 2))
@@ -431,7 +431,7 @@ def latmio_und(R, itr, D=None, seed=None):
 
     i, j = np.where(np.tril(R))
     k = len(i)
-    itr *= k
+    itr = itr * k
 
     # maximal number of rewiring attempts per iteration
     max_attempts = np.round(n * k / (n * (n - 1) / 2))
@@ -523,7 +523,7 @@ def makeevenCIJ(n, k, sz_cl, seed=None):
     rng = get_rng(seed)
     # compute number of hierarchical levels and adjust cluster size
     mx_lvl = int(np.floor(np.log2(n)))
-    sz_cl -= 1
+    sz_cl = sz_cl - 1
 
     # make a stupid little template
     t = np.ones((2, 2)) * 2
@@ -600,7 +600,7 @@ def makefractalCIJ(mx_lvl, E, sz_cl, seed=None):
 
     # compute N and cluster size
     n = 2**mx_lvl
-    sz_cl -= 1
+    sz_cl = sz_cl - 1
 
     for lvl in range(1, mx_lvl):
         s = 2**(lvl + 1)
@@ -1166,7 +1166,7 @@ def randmio_dir_connected(R, itr, seed=None):
     n = len(R)
     i, j = np.where(R)
     k = len(i)
-    itr *= k
+    itr = itr * k
 
     max_attempts = np.round(n * k / (n * (n - 1)))
     eff = 0
@@ -1262,7 +1262,7 @@ def randmio_dir(R, itr, seed=None):
     n = len(R)
     i, j = np.where(R)
     k = len(i)
-    itr *= k
+    itr = itr * k
 
     max_attempts = np.round(n * k / (n * (n - 1)))
     eff = 0
@@ -1349,7 +1349,7 @@ def randmio_und_connected(R, itr, seed=None):
     n = len(R)
     i, j = np.where(np.tril(R))
     k = len(i)
-    itr *= k
+    itr = itr * k
 
     # maximum number of rewiring attempts per iteration
     max_attempts = np.round(n * k / (n * (n - 1)))
@@ -1458,7 +1458,7 @@ def randmio_dir_signed(R, itr, seed=None):
     R = R.copy()
     n = len(R)
 
-    itr *= n * (n - 1)
+    itr = itr * n * (n - 1)
 
     #maximal number of rewiring attempts per iter
     max_attempts = n
@@ -1541,7 +1541,7 @@ def randmio_und(R, itr, seed=None):
     n = len(R)
     i, j = np.where(np.tril(R))
     k = len(i)
-    itr *= k
+    itr = itr * k
 
     # maximum number of rewiring attempts per iteration
     max_attempts = np.round(n * k / (n * (n - 1)))
@@ -1625,7 +1625,7 @@ def randmio_und_signed(R, itr, seed=None):
     R = R.copy()
     n = len(R)
 
-    itr *= int(n * (n -1) / 2)
+    itr = itr * int(n * (n -1) / 2)
 
     max_attempts = int(np.round(n / 2))
     eff = 0
